@@ -49,15 +49,15 @@ def _alarm(signum, frame):
 
 def guarded(fn, secs=20):
     """(exception name or "", value)"""
-    signal.setitimer(signal.ITIMER_REAL, secs)
+    signal.setitimer(signal.ITIMER_PROF, secs)
     try:
         v = fn()
-        signal.setitimer(signal.ITIMER_REAL, 0)
+        signal.setitimer(signal.ITIMER_PROF, 0)
         return "", v
     except _Timeout:
         return "Timeout", None
     except BaseException as ex:  # noqa: BLE001
-        signal.setitimer(signal.ITIMER_REAL, 0)
+        signal.setitimer(signal.ITIMER_PROF, 0)
         if isinstance(ex, (KeyboardInterrupt, SystemExit)):
             raise
         return type(ex).__name__, None
@@ -1382,7 +1382,7 @@ def main():
     job = json.load(open(sys.argv[1]))
     logging.disable(logging.CRITICAL)
     sys.setrecursionlimit(job.get("reclimit", 150))     # runaway recursion in a transfer function fails fast
-    signal.signal(signal.SIGALRM, _alarm)
+    signal.signal(signal.SIGPROF, _alarm)     # CPU time, not wall clock: a loaded machine must not look like a hang
     rng = random.Random(job.get("seed", 0))
     out = ShardWriter(sys.argv[2], job.get("shard", 20000))
     subjobs = job["jobs"] if job["gen"] == "multi" else [job]
